@@ -179,6 +179,9 @@ def run_stream(job):
                 res["N"][k] = int(v)
         elif l.startswith("F "):
             res["first"].append(l[2:])
+        elif l.startswith("C "):
+            _, c, k = l.split(" ")
+            res.setdefault("cls", {})[c] = res.get("cls", {}).get(c, 0) + int(k)
     return res
 
 
@@ -308,9 +311,16 @@ def main():
     seen_known = {}
     for s in S_known:
         seen_known.setdefault(cls_of(s), []).append(s)
+    cls_totals = {}
+    for r in results:
+        for c, k in r.get("cls", {}).items():
+            cls_totals[c] = cls_totals.get(c, 0) + k
+    n_known = sum(k for c, k in cls_totals.items() if c in known_classes)
+    n_new = sum(k for c, k in cls_totals.items() if c not in known_classes)
+    n_diff = sum(r["N"].get("diff", 0) for r in results)
     for c, k in known_classes.items():
         if c in seen_known:
-            print(f"KNOWN-FINDING: property={prop} {k['site']}: {k['what']} [class {c}; {len(seen_known[c])} lines this run, e.g. {line_of(seen_known[c][0])}]")
+            print(f"KNOWN-FINDING: property={prop} {k['site']}: {k['what']} [class {c}; {cls_totals.get(c, len(seen_known[c]))} lines this run, e.g. {line_of(seen_known[c][0])}]")
     samples = []
     for r in results:
         samples += r["first"][:2]
@@ -371,9 +381,9 @@ def main():
     write_evidence(prop, tier, seed, cfg, total, distinct, tags, samples, obligations, discharged, axmap,
                    time.time() - t0, len(S_new) + (1 if rc and not S_new else 0),
                    note="", streams=[(r["label"], r["N"].get("total", 0), round(r["wall"], 2)) for r in results],
-                   known=sorted(seen_known), diffs=len(D))
-    print(f"{prop} [{tier}] lines={total} distinct-nontrivial={distinct} model-diff={len(D)} spec-fail={len(S_new)} "
-          f"known={len(S_known)} theorems={discharged}/{obligations} wall={time.time() - t0:.1f}s -> {'FAIL' if rc else 'ok'}")
+                   known=sorted(seen_known), diffs=n_diff)
+    print(f"{prop} [{tier}] lines={total} distinct-nontrivial={distinct} model-diff={n_diff} spec-fail={n_new} "
+          f"known={n_known} theorems={discharged}/{obligations} wall={time.time() - t0:.1f}s -> {'FAIL' if rc else 'ok'}")
     return rc
 
 
